@@ -582,3 +582,109 @@ func ruleStride(c *Ctx, rule string, fns []*ssa.Function) {
 		}
 	}
 }
+
+// ruleWatermark: when a looked-up letter is outside the alphabet, the
+// k-mer scanner records the first position from which a window no longer
+// contains that letter: exactly one past the letter's own position. The
+// value carried out of the invalid-letter branch must therefore equal the
+// looked-up position + 1 (both are linear in the same loop counter, so the
+// difference is a compile-time constant).
+func ruleWatermark(c *Ctx, rule string, fn *ssa.Function) {
+	alphaPath := modPath + "/alphabet"
+	n := 0
+	for _, b := range fn.Blocks {
+		for _, ins := range b.Instrs {
+			ia, ok := ins.(*ssa.IndexAddr)
+			if !ok || !isNamed(ia.X.Type(), alphaPath, "Index") {
+				continue
+			}
+			acc := seqAccess(ia.Index)
+			if acc == nil {
+				continue
+			}
+			xphi, xa, ok := linearIn(acc.Index)
+			if !ok {
+				continue
+			}
+			for _, r := range *ia.Referrers() {
+				v, ok := r.(*ssa.UnOp)
+				if !ok || v.Op != token.MUL {
+					continue
+				}
+				// the sign test on v and its negative successor
+				for _, rr := range *v.Referrers() {
+					bo, ok := rr.(*ssa.BinOp)
+					if !ok {
+						continue
+					}
+					for _, r3 := range *bo.Referrers() {
+						ifi, ok := r3.(*ssa.If)
+						if !ok {
+							continue
+						}
+						f, ok := condFact(ifi.Cond, sameValue(v))
+						if !ok {
+							continue
+						}
+						neg := -1
+						if lowerBound([]cmpFact{f}, -1) >= 0 {
+							neg = 1
+						} else {
+							nf := f
+							nf.op = negateOp(f.op)
+							if lowerBound([]cmpFact{nf}, -1) >= 0 {
+								neg = 0
+							}
+						}
+						if neg < 0 {
+							continue
+						}
+						nb := ifi.Block().Succs[neg]
+						if returnsOnly(nb) || len(nb.Succs) != 1 {
+							continue // the invalid letter ends the function: no watermark needed
+						}
+						merge := nb.Succs[0]
+						pi := -1
+						for i, p := range merge.Preds {
+							if p == nb {
+								pi = i
+							}
+						}
+						n++
+						key := fmt.Sprintf("%s/invalid-letter-watermark#%d", funcName(fn), n)
+						good, bad := false, ""
+						for _, mi := range merge.Instrs {
+							phi, ok := mi.(*ssa.Phi)
+							if !ok {
+								break
+							}
+							if pi < 0 {
+								continue
+							}
+							vphi, va, ok := linearIn(phi.Edges[pi])
+							if !ok || vphi != xphi {
+								continue
+							}
+							if va-xa == 1 {
+								good = true
+							} else {
+								bad = fmt.Sprintf("the watermark (%s) is set to the invalid letter's position %+d instead of +1", phi.Comment, va-xa)
+							}
+						}
+						switch {
+						case bad != "":
+							c.bad(rule, key, v.Pos(), bad+": the window that starts at (or just before) the invalid letter is still reported, as a k-mer with the letter read as index 0")
+						case good:
+							c.ok(rule, key, v.Pos(), "on the invalid-letter branch the watermark is the letter's position + 1")
+						default:
+							c.und(rule, key, v.Pos(), "no value linear in the scan position leaves the invalid-letter branch")
+						}
+					}
+				}
+			}
+		}
+	}
+	if n == 0 {
+		c.und(rule, funcName(fn)+"/invalid-letter-watermark", fn.Pos(), "no skipped-letter branch found")
+	}
+}
